@@ -18,15 +18,17 @@ META = {
             "keep them over a clean restart.",
     "note": "Single-byte damage or truncation of one file at a time: newest non-empty WAL and WBL segment, the newest checkpoint's "
             "segment, the newest head-chunk file. Workloads as in C03 (<=2 series, one with a >32 KiB label set, scripted scenarios "
-            "with restarts, checkpoints, deletes, out-of-order data). Quick tier samples offsets inside payload/padding regions "
-            "(ends, middle, seeded stride) and uses 2-3 databases; thorough: every offset. Equality with the prediction is checked up "
+            "with restarts, checkpoints, deletes, out-of-order data; one single-series scenario with four m-mapped out-of-order chunks in "
+            "one head-chunk file). Quick tier samples offsets inside payload/padding regions "
+            "(ends, middle, seeded stride) and uses 4 databases; thorough: every offset. Equality with the prediction is checked up "
             "to the samples that intact head chunks may legitimately add (must <= contents <= may).",
     "technique": "TLA+ model of the on-disk layout and recovery (Damage.tla over Crash.tla/Db.tla) checked by TLC; TLC-generated "
                  "(database, damage class -> required contents) tables swept over concrete byte offsets of real files",
     "design_ref": "DESIGN.md §5 C04, §7 H3",
 }
 
-SCRIPTS = [("d1", 5), ("s1", 0), ("s2", 0), ("s3", 5)]
+# script of Crash.tla, out-of-order window, extra constants
+SCRIPTS = [("d1", 5, {}), ("s1", 0, {}), ("s2", 0, {}), ("s3", 5, {}), ("d2", 20, {"Series": '{"s1"}'})]
 
 
 def run(ctx):
@@ -42,12 +44,12 @@ def run(ctx):
     behs = []
     scripts = SCRIPTS
     if q and not ctx._parts:
-        scripts = SCRIPTS[:2] + [SCRIPTS[2 + ctx.seed % 2]]     # quick: d1, s1 and one of s2 / s3 by seed
-    for name, w in scripts:
+        scripts = SCRIPTS[:2] + [SCRIPTS[2 + ctx.seed % 2], SCRIPTS[4]]     # quick: d1, s1, d2 and one of s2 / s3 by seed
+    for name, w, extra in scripts:
         if not ctx.want(name):
             continue
         sim = ctx.tlc("damage", "Damage", "SIM.cfg", simulate=(1 if q else 2), depth=4000, workers=1 if q else 2, files=files,
-                      constants={"ScriptName": '"%s"' % name, "W": w}, timeout=(300 if q else 3000))
+                      constants=dict({"ScriptName": '"%s"' % name, "W": w}, **extra), timeout=(300 if q else 3000))
         ctx.account(sim)
         ctx.log("SIM %s: %d databases" % (name, len(sim.emitted)))
         behs += sim.emitted
